@@ -35,10 +35,18 @@ type Sess struct {
 	finalized    bool
 	provingLemma *Axiom
 	usedAxioms   []string
+	uses         map[string]bool // manual axioms / lemmas requested by the contract or lemma under proof
 	heapOwner    map[string]string
 	axiomErrs    []string
 	nq           int
 	heapElemT    map[string]types.Type
+}
+
+func (s *Sess) setUses(names []string) {
+	s.uses = map[string]bool{}
+	for _, n := range names {
+		s.uses[n] = true
+	}
 }
 
 func NewSess(g *Gen, mode string) *Sess {
